@@ -5,10 +5,12 @@ EXTENDS SixelQueue, TLC, Json
 CONSTANTS MaxPolls, MaxClears, RectCfg, Export
 VARIABLES q, polls, clears, hist
 vars == <<q, polls, clears, hist>>
-\* rectangle configurations in character cells (x0, y0, x1, y1): disjoint / nested / chain / identical
+\* rectangle configurations in character cells (x0, y0, x1, y1): disjoint / nested / chain / redraw-in-place (5, 6) / partial overlap
 RectDef == CASE RectCfg = 1 -> << <<0,0,1,1>>, <<3,0,4,1>>, <<6,0,7,1>>, <<9,0,10,1>> >>
              [] RectCfg = 2 -> << <<1,1,2,2>>, <<0,0,4,4>>, <<1,1,2,2>>, <<0,0,5,5>> >>
              [] RectCfg = 3 -> << <<0,0,5,5>>, <<1,1,2,2>>, <<0,0,5,5>>, <<3,3,4,4>> >>
+             [] RectCfg = 5 -> << <<0,0,1,1>>, <<3,0,4,1>>, <<6,0,7,1>>, <<0,0,1,1>> >>      \* three side by side, the fourth redraws the FIRST in place
+             [] RectCfg = 6 -> << <<0,0,1,1>>, <<3,0,4,1>>, <<6,0,7,1>>, <<3,0,4,1>> >>      \* ... the fourth redraws the middle one
              [] OTHER       -> << <<0,0,2,2>>, <<1,1,3,3>>, <<0,0,3,3>>, <<2,2,2,2>> >>
 Init == q = InitQ /\ polls = 0 /\ clears = 0 /\ hist = <<>>
 Submit == q.next <= K /\ q' = SubmitQ(q) /\ hist' = Append(hist, <<"submit", q.next>>) /\ UNCHANGED <<polls, clears>>
